@@ -56,9 +56,25 @@ func c17Desc(tag string, secrets *[]string) map[string]any {
 			"bob":    map[string]any{"password": "bobpw-MARKSECRET" + tag, "permissions": "op"},
 			"":       map[string]any{"password": "emptypw-MARKSECRET" + tag, "permissions": "message"},
 		},
-		"wildcard-user": map[string]any{"password": map[string]any{"type": "wildcard"}, "permissions": "message"},
+		"wildcard-user": map[string]any{"password": c17WildcardPassword(tag, secrets), "permissions": "message"},
 		"authKeys":      []any{map[string]any{"kty": "oct", "alg": "HS256", "k": hmacKey, "kid": "k" + tag}},
 	}
+}
+
+// c17WildcardPassword: the fallback user's password is a secret like any other: open (type wildcard) in the first
+// group, a shared plain-text password in the second, a hash in the subgroup.
+func c17WildcardPassword(tag string, secrets *[]string) any {
+	switch {
+	case strings.HasSuffix(tag, "b"):
+		*secrets = append(*secrets, "wildpw-MARKSECRET"+tag)
+		return "wildpw-MARKSECRET" + tag
+	case strings.HasSuffix(tag, "s"):
+		salt := []byte("wsalt" + tag)
+		key := pbkdf2.Key([]byte("wildpw-"+tag), salt, 8, 32, sha256.New)
+		*secrets = append(*secrets, hex.EncodeToString(key), hex.EncodeToString(salt))
+		return map[string]any{"type": "pbkdf2", "hash": "sha-256", "key": hex.EncodeToString(key), "salt": hex.EncodeToString(salt), "iterations": 8}
+	}
+	return map[string]any{"type": "wildcard"}
 }
 
 func newC17World() *c17World {
@@ -528,6 +544,28 @@ func TestVerif_C17_RacingUpdates(t *testing.T) {
 				}
 			}
 		}()
+		// a third kind of writer: the keys (one writer, so that "the keys written last" is well defined)
+		var lastKid atomic.Value
+		keysWriter := rapid.Bool().Draw(t, "keysWriter")
+		if keysWriter {
+			wg.Add(1)
+			go func() {
+				defer wg.Done()
+				for i := 0; !stop.Load() && i < 4000; i++ {
+					kid := fmt.Sprintf("kw%d", i)
+					body := fmt.Sprintf(`{"keys":[{"kty":"oct","alg":"HS256","k":"a2V5a2V5a2V5a2V5a2V5a2V5a2V5a2V5a2V5a2V5a2U","kid":"%s"}]}`, kid)
+					r, err := rig.raw("PUT", p+"/.keys", map[string]string{"Authorization": auth, "Content-Type": "application/jwk-set+json"}, []byte(body))
+					if err != nil {
+						bad.Store("PUT keys: no HTTP response: " + err.Error())
+						return
+					}
+					if r.Status >= 200 && r.Status < 300 {
+						lastKid.Store(kid)
+						descAcks.Add(1)
+					}
+				}
+			}()
+		}
 		type made struct {
 			name, perm string
 			at         int64
@@ -595,8 +633,16 @@ func TestVerif_C17_RacingUpdates(t *testing.T) {
 				t.Fatalf("C17: the password of %s was altered: %v (%s)", m.name, pw, plan)
 			}
 		}
-		if ks, _ := d["authKeys"].([]any); len(ks) != 1 {
+		ks, _ := d["authKeys"].([]any)
+		if len(ks) != 1 {
 			t.Fatalf("C17: the keys were altered by updates that do not address them: %v (%s)", d["authKeys"], plan)
+		}
+		wantKid := "k0"
+		if k, ok := lastKid.Load().(string); ok {
+			wantKid = k
+		}
+		if km, _ := ks[0].(map[string]any); km["kid"] != wantKid {
+			t.Fatalf("C17/C18: the last acknowledged key set has kid %q, the file holds %v: an acknowledged update was lost or undone by another writer (%s)", wantKid, km["kid"], plan)
 		}
 		overlapped := false
 		if len(created) > 1 {
@@ -606,6 +652,7 @@ func TestVerif_C17_RacingUpdates(t *testing.T) {
 		c17rRec.ClassN("description_rewrites_acknowledged", int(descAcks.Load()))
 		c17rRec.ClassN("users_created", len(created))
 		c17rRec.ClassIf(conditional, "description_writer_uses_if_match")
+		c17rRec.ClassIf(keysWriter, "with_a_keys_writer")
 	})
 }
 
